@@ -358,6 +358,7 @@ fn isolate_crash(f: &pool::WorkerFailure, property: &str) -> Option<Replay> {
                             signature: "I-crash".into(),
                         },
                         shim_ring: None,
+                        hard_fault: None,
                     });
                 }
             }
